@@ -121,7 +121,11 @@ class Builtins:
         if name.startswith('object.'):
             return NONE
         if name.startswith('extcontract:'):
-            return self.ctx.apply_ext_contract(I, name[len('extcontract:'):], args[0], args[1:], kwargs, node)
+            q = name[len('extcontract:'):]
+            c = self.ctx.registry.contracts[('<ext>', q)]
+            if c.params and c.params[0][0] == 'self':
+                return self.ctx.apply_ext_contract(I, q, args[0], args[1:], kwargs, node)
+            return self.ctx.apply_ext_contract(I, q, None, args, kwargs, node)
         ext = self.ctx.extern_call(I, name, args, kwargs, node)
         if ext is not NotImplemented:
             return ext
